@@ -12,13 +12,16 @@ def cap(E, s):
 
 
 def sub(s, a, ln, is_str=None, capv=None):
-    return Str(s.base, s.off + a, ln, s.is_str if is_str is None else is_str, s.cap if capv is None else capv, s.cbytes, s.abs_cap)
+    return Str(s.base, s.off + a, ln, s.is_str if is_str is None else is_str, s.cap if capv is None else capv, s.cbytes, s.abs_cap, s.elems)
 
 
 def positions(E, s):
     """[(guard, byte, relative index term)] over the bytes of s.  Windows at a symbolic offset of a zero-based buffer are
     enumerated by absolute buffer position so that every array read has a constant index."""
-    if z3.is_bv_value(s.off) or s.abs_cap is None:
+    if z3.is_bv_value(s.off) or s.abs_cap is None or s.elems is not None:
+        if s.elems is not None and not z3.is_bv_value(s.off):
+            end = s.off + s.ln
+            return [(z3.And(z3.ULE(s.off, bv(k)), z3.ULT(bv(k), end)), s.elems[k], bv(k) - s.off) for k in range(len(s.elems))]
         return [(in_window(j, s), s.at(j), bv(j)) for j in range(cap(E, s))]
     end = s.off + s.ln
     return [(z3.And(z3.ULE(s.off, bv(k)), z3.ULT(bv(k), end)), z3.Select(s.base, bv(k)), bv(k) - s.off) for k in range(s.abs_cap)]
@@ -88,9 +91,9 @@ def find_pred(E, s, pred_at, name='idx', width=None, upto_len=False, byte_pred=N
     n = cap(E, s) + (1 if upto_len else 0)
     inw = (lambda j: z3.ULE(bv(j), s.ln)) if upto_len else (lambda j: in_window(j, s))
     hits = [z3.And(inw(j), pred_at(bv(j))) for j in range(n)]
-    cb = _concrete_bools(hits) if s.cbytes is not None else None
+    cb = _concrete_bools(hits) if (s.cbytes is not None or n <= 16) else None
     if cb is not None:
-        return [(T, some(I(cb.index(True), 64)) if True in cb else NONE)]
+        return [(T, some(I(cb.index(True), 64))), (FALSE, NONE)] if True in cb else [(FALSE, some(I(0, 64))), (T, NONE)]
     r = E.fresh_bv(name)
     none_val = s.ln + 1 if upto_len else s.ln
     in_r = z3.ULE(r, s.ln) if upto_len else z3.ULT(r, s.ln)
@@ -110,7 +113,7 @@ def rfind_pred(E, s, pred_at):
     hits = [z3.And(in_window(j, s), pred_at(bv(j))) for j in range(n)]
     cb = _concrete_bools(hits) if s.cbytes is not None else None
     if cb is not None:
-        return [(T, some(I(len(cb) - 1 - cb[::-1].index(True), 64)) if True in cb else NONE)]
+        return [(T, some(I(len(cb) - 1 - cb[::-1].index(True), 64))), (FALSE, NONE)] if True in cb else [(FALSE, some(I(0, 64))), (T, NONE)]
     r = E.fresh_bv('ridx')
     # r = greatest hit, r = len when none
     in_r = z3.ULT(r, s.ln)
@@ -334,6 +337,19 @@ def concat(E, parts, is_str=True):
         return parts[0]
     if all(p.conc() is not None for p in parts):
         return E.const_str(b''.join(p.conc() for p in parts), is_str)
+    if any(p.elems is not None for p in parts) and all(p.elems is not None or p.conc() is not None for p in parts):
+        total_cap = sum(cap(E, p) for p in parts)
+        offs = [bv(0)]
+        for p in parts:
+            offs.append(z3.simplify(offs[-1] + p.ln))
+        elems = []
+        for j in range(total_cap):
+            e = z3.BitVecVal(0, 8)
+            for k in range(len(parts) - 1, -1, -1):
+                p = parts[k]
+                e = z3.If(z3.And(z3.ULE(offs[k], bv(j)), z3.ULT(bv(j), offs[k + 1])), p.at(bv(j) - offs[k]), e)
+            elems.append(z3.simplify(e))
+        return Str(z3.K(BV64, z3.BitVecVal(0, 8)), bv(0), offs[-1], is_str, total_cap, None, total_cap, elems)
     i = z3.BitVec('cc_i', 64)
     # build nested ite from the end
     offs = [bv(0)]
@@ -384,7 +400,7 @@ def register(E):
 
     @model(r'^core::str::<impl str>::as_bytes$|^std::string::String::as_bytes$')
     def _(E, st, callee, a, m):
-        s = as_str(st, a[0]); return [(T, Str(s.base, s.off, s.ln, False, s.cap, s.cbytes))]
+        s = as_str(st, a[0]); return [(T, Str(s.base, s.off, s.ln, False, s.cap, s.cbytes, s.abs_cap, s.elems))]
 
     @model(r'^core::str::<impl str>::as_ptr$')
     def _(E, st, callee, a, m): return [(T, Opaque('ptr'))]
@@ -393,7 +409,7 @@ def register(E):
     def _(E, st, callee, a, m):
         s = as_str(st, a[0])
         if 'AsRef<[u8]>' in callee:
-            return [(T, Str(s.base, s.off, s.ln, False, s.cap, s.cbytes))]
+            return [(T, Str(s.base, s.off, s.ln, False, s.cap, s.cbytes, s.abs_cap, s.elems))]
         return [(T, s)]
 
     @model(r'^core::str::<impl str>::bytes$')
@@ -793,7 +809,7 @@ def register(E):
         from ..engine import utf8_wf
         s = as_str(st, a[0])
         wf = z3.And(*utf8_wf(s, cap(E, s)))
-        return [(wf, ok(Str(s.base, s.off, s.ln, True, s.cap, s.cbytes))), (z3.Not(wf), err(Opaque('Utf8Error')))]
+        return [(wf, ok(Str(s.base, s.off, s.ln, True, s.cap, s.cbytes, s.abs_cap, s.elems))), (z3.Not(wf), err(Opaque('Utf8Error')))]
 
     @model(r'^std::string::String::from_utf8$')
     def _(E, st, callee, a, m):
